@@ -626,3 +626,105 @@ func TestShippedPerTypeVectors(t *testing.T) {
 	}
 	s.Sample(func() any { return "type1/type2/type5 *-issuance-test-vectors.json, 5 entries each" })
 }
+
+// TestSameKeyIDDifferentKeys: the token key id is an ARGUMENT; creation must follow the key it is given, whatever id
+// accompanied another key earlier in the process.
+func TestSameKeyIDDifferentKeys(t *testing.T) {
+	s := rt.S("same-key-id-different-keys").SetRule("types 1, 2, 5: one fixed 32-byte key-id argument is used with two (three) different issuer keys in turn, with fixed blinds; each issuance must finalize to a token that verifies under ITS key and carries the id; the first key is then used again and must reproduce its first request and token byte for byte. non-trivial = every case; distinct by (type, key id, keys)")
+	rt.Check(t, 40, 4000, func(t *rapid.T) {
+		defer rt.Entropy(gen.Seed().Draw(t, "entropy"))()
+		typ := gen.Pick(t, []uint16{1, 2, 5}, "type")
+		keyID := gen.Bytes32().Draw(t, "keyID")
+		chal, nonce := gen.Challenge().Draw(t, "challenge"), gen.Bytes32().Draw(t, "nonce")
+		s.Eval()
+		s.Class(gen.TypeName(typ))
+		s.Nontrivial([]byte{byte(typ)}, keyID, chal, nonce)
+		type result struct{ req, tok []byte }
+		var first result
+		order := []int{0, 1, 2, 0}
+		var blind1, blind5, blind2, salt []byte
+		blind1, blind5 = gen.P384Scalar().Draw(t, "blind1"), gen.RistrettoScalar().Draw(t, "blind5")
+		salt = rapid.SliceOfN(rapid.Byte(), 48, 48).Draw(t, "salt")
+		keySeed := gen.Seed().Draw(t, "keyseed")
+		rsaBase := gen.RSAKey().Draw(t, "rsakey")
+		_ = blind2
+		for step, ki := range order {
+			var req, tok []byte
+			var verr error
+			switch typ {
+			case 1:
+				k := gen.OPRFKey(oprf.SuiteP384, append(append([]byte{}, keySeed...), byte(ki)))
+				st, err := type1.NewBasicPrivateClient().CreateTokenRequestWithBlind(chal, nonce, keyID, k.Public(), blind1)
+				if err != nil {
+					rt.Fail(t, "C11/type1/run", "creation failed: %v", err)
+					return
+				}
+				req = append([]byte{}, st.Request().Marshal()...)
+				resp, err := type1.NewBasicPrivateIssuer(k).Evaluate(st.Request())
+				if err == nil {
+					var tk tokens.Token
+					if tk, err = st.FinalizeToken(resp); err == nil {
+						tok = tk.Marshal()
+						if !bytes.Equal(tk.Authenticator, gen.VOPRFOutput(oprf.SuiteP384, k, gen.AuthInput(1, nonce, chal, keyID))) {
+							verr = fmt.Errorf("token does not verify under the key it was requested for")
+						}
+					}
+				}
+				if err != nil {
+					verr = err
+				}
+			case 5:
+				k := gen.OPRFKey(oprf.SuiteRistretto255, append(append([]byte{}, keySeed...), byte(ki)))
+				st, err := type5.NewBatchedPrivateClient().CreateTokenRequestWithBlinds(chal, [][]byte{nonce}, keyID, k.Public(), [][]byte{blind5})
+				if err != nil {
+					rt.Fail(t, "C11/type5/run", "creation failed: %v", err)
+					return
+				}
+				req = append([]byte{}, st.Request().Marshal()...)
+				resp, err := type5.NewBatchedPrivateIssuer(k).Evaluate(st.Request())
+				if err == nil {
+					var tks []tokens.Token
+					if tks, err = st.FinalizeTokens(resp); err == nil {
+						tok = tks[0].Marshal()
+						if !bytes.Equal(tks[0].Authenticator, gen.VOPRFOutput(oprf.SuiteRistretto255, k, gen.AuthInput(5, nonce, chal, keyID))) {
+							verr = fmt.Errorf("token does not verify under the key it was requested for")
+						}
+					}
+				}
+				if err != nil {
+					verr = err
+				}
+			case 2:
+				k := gen.RSAPool()[(rsaBase+ki)%len(gen.RSAPool())]
+				st, err := type2.NewBasicPublicClient().CreateTokenRequestWithBlind(chal, nonce, keyID, &k.PublicKey, []byte{3}, salt)
+				if err != nil {
+					rt.Fail(t, "C11/type2/run", "creation failed: %v", err)
+					return
+				}
+				req = append([]byte{}, st.Request().Marshal()...)
+				resp, err := type2.NewBasicPublicIssuer(k).Evaluate(st.Request())
+				if err == nil {
+					var tk tokens.Token
+					if tk, err = st.FinalizeToken(resp); err == nil {
+						tok = tk.Marshal()
+						verr = gen.VerifyPSS(&k.PublicKey, gen.AuthInput(2, nonce, chal, keyID), tk.Authenticator)
+					}
+				}
+				if err != nil {
+					verr = err
+				}
+			}
+			if verr != nil {
+				rt.Fail(t, fmt.Sprintf("C11/type%d/key-id-reused-with-other-key", typ), "step %d (key %d of the sequence 0,1,2,0 under ONE key-id argument): %v", step, ki, verr)
+				return
+			}
+			if step == 0 {
+				first = result{req, tok}
+			} else if step == 3 && (!bytes.Equal(first.req, req) || !bytes.Equal(first.tok, tok)) {
+				rt.Fail(t, fmt.Sprintf("C11/type%d/not-reproducible-after-other-keys", typ), "the first key, used again after two other keys under the same key-id argument, does not reproduce its request/token")
+				return
+			}
+		}
+		s.Sample(func() any { return map[string]any{"type": typ, "key_id": rt.Hex(keyID)} })
+	})
+}
